@@ -66,3 +66,40 @@ CONTRACTS.append(Contract(
     ensures=ONE_MORE,
     raises={},
 ))
+
+# ---- CIM-XML level responses: the declared Content-Length is the number of BYTES written, the echoed message id and
+# method name are the ones of the request, exactly one status line
+XM = 'pywbem/_cim_xml.py::'
+CLASS_SPECS = {'CIMInstance': {'classname': Str}}
+HANDLER2 = Obj('ListenerRequestHandler', logger=Ref('Logger'), wfile=Ref('File'), _g_responses=Int, _g_clen=Int)
+send_header2_c = Contract('external::BaseHTTPRequestHandler.send_header', sig=['self', 'keyword', 'value'],
+                          requires=[('header-value-has-no-line-break', "'\\r' not in value and '\\n' not in value")],
+                          modifies=['self._g_clen'],
+                          ensures=[('declared-length-recorded',
+                                    "implies(keyword == 'Content-Length', self._g_clen == str2int(value, 10))"),
+                                   ('other-headers-leave-it', "implies(keyword != 'Content-Length', self._g_clen == old(self._g_clen))")],
+                          trusted=True, notes='A-LIB; ghost: the Content-Length that was declared')
+write_c = Contract('external::File.write', sig=['self', 'data'], trusted=True,
+                   requires=[('body-is-bytes', 'isinstance(data, bytes)'),
+                             ('declared-Content-Length-is-the-number-of-bytes-written', 'len(data) == caller_self._g_clen')])
+toxml2_c = Contract('external::Element.toxml', sig=['self'], returns=Str, trusted=True)
+statusname_c = Contract('pywbem/_cim_constants.py::_statuscode2name', returns=Str, trusted=True)
+expmethodresponse_c = Contract(XM + 'EXPMETHODRESPONSE.__init__', trusted=True, raises={},
+                               requires=[('method-name-of-the-request-is-echoed', 'name == caller_methodname')])
+message_c = Contract(XM + 'MESSAGE.__init__', trusted=True, raises={},
+                     requires=[('message-id-of-the-request-is-echoed', 'message_id == caller_msgid')])
+error_c = Contract(XM + 'ERROR.__init__', trusted=True, raises={},
+                   requires=[('status-code-and-description-handed-over',
+                              'code == str(caller_status_code) and description == caller_status_desc')])
+RESP_CALLEES = {'send_response': send_response_c, 'send_header': send_header2_c, 'end_headers': end_headers_c,
+                'write': write_c, 'toxml': toxml2_c, '_statuscode2name': statusname_c,
+                'EXPMETHODRESPONSE.__init__': expmethodresponse_c, 'MESSAGE.__init__': message_c, 'ERROR.__init__': error_c}
+CONTRACTS.append(Contract(
+    K + 'send_error_response',
+    params={'self': HANDLER2, 'msgid': Str, 'methodname': Str, 'status_code': Int, 'status_desc': Str,
+            'error_insts': Lit(None)},
+    callees=RESP_CALLEES, ensures=ONE_MORE, raises={}))
+CONTRACTS.append(Contract(
+    K + 'send_success_response',
+    params={'self': HANDLER2, 'msgid': Str, 'methodname': Str, 'instance': Ref('CIMInstance')},
+    callees=RESP_CALLEES, ensures=ONE_MORE, raises={}))
